@@ -330,8 +330,8 @@ impl Sub for &LazyBigint {
                 || LazyBigint::Long(assert_is_long(BigInt::from(*s1) - s2)),
                 LazyBigint::Short,
             ),
-            (LazyBigint::Short(s), LazyBigint::Long(b))
-            | (LazyBigint::Long(b), LazyBigint::Short(s)) => LazyBigint::from(b - s),
+            (LazyBigint::Short(s), LazyBigint::Long(b)) => LazyBigint::from(BigInt::from(*s) - b),
+            (LazyBigint::Long(b), LazyBigint::Short(s)) => LazyBigint::from(b - s),
             (LazyBigint::Long(b0), LazyBigint::Long(b1)) => LazyBigint::from(b0 - b1),
         }
     }
